@@ -36,7 +36,7 @@ ASSUMPTIONS = [
 
 
 def GATES(tier):
-    g = [("calls_judged", 200), ("judged_returned", 50), ("judged_raised", 50), ("callback_faults_run", 20), ("line_failpoints_run", 100), ("line_failpoints_surfaced", 50)]
+    g = [("calls_judged", 200), ("judged_returned", 50), ("judged_raised", 50), ("callback_faults_run", 20), ("line_failpoints_run", 100), ("line_failpoints_surfaced", 50), ("directed_aliasing_cases", 20)]
     for hk in dr.HELPER_KINDS:
         g.append((f"kind:{hk}:returned", 1))
         g.append((f"kind:{hk}:raised", 1))
@@ -75,7 +75,78 @@ def judge(ctx, world, insts, op, step, history, phase, extra=None):
     return feats
 
 
+DIRECTED_SRC = """
+from typing import Dict, List
+from spec_classes import spec_class
+
+@spec_class
+class Child:
+    x: int = 0
+    xs: List[int] = []
+
+@spec_class
+class R:
+    child: Child
+    other: Child
+    kids: List[Child] = []
+    byname: Dict[str, Child] = {}
+"""
+
+
+def directed_cases(ctx):
+    """
+    Arguments and callbacks that hand the library objects the receiver already owns (its other nested values, elements
+    of its containers), combined with attribute keywords / attribute transforms: whatever the library has to modify, it
+    must modify a copy. Receiver states: target attribute missing, and present.
+    """
+    from vlib.snap import snap
+
+    ns = cg.exec_module(DIRECTED_SRC, prefix="verif_c01d").__dict__
+    R, Child = ns["R"], ns["Child"]
+    inc = lambda v: v + 1  # noqa: E731
+
+    def receivers():
+        yield "child_missing", R(other=Child(x=10, xs=[1]), kids=[Child(x=1), Child(x=2)], byname={"a": Child(x=3)})
+        yield "child_present", R(child=Child(x=5), other=Child(x=10, xs=[1]), kids=[Child(x=1), Child(x=2)], byname={"a": Child(x=3)})
+
+    calls = [
+        ("transform_child(-> r.other, x=inc)", lambda r: r.transform_child(lambda c: r.other, x=inc)),
+        ("transform_child(-> r.kids[0], x=inc)", lambda r: r.transform_child(lambda c: r.kids[0], x=inc)),
+        ("transform_child(-> r.byname['a'], xs=append)", lambda r: r.transform_child(lambda c: r.byname["a"], xs=lambda l: l + [9])),
+        ("transform_kid(0, -> r.other, x=inc)", lambda r: r.transform_kid(0, lambda k: r.other, x=inc)),
+        ("transform_byname_item('a', -> r.kids[1], x=inc)", lambda r: r.transform_byname_item("a", lambda k: r.kids[1], x=inc)),
+        ("transform(-> r, child=-> r.other)", lambda r: r.transform(lambda s: s, child=lambda c: r.other)),
+        ("with_child(r.other, x=5)", lambda r: r.with_child(r.other, x=5)),
+        ("update_child(r.other, x=5)", lambda r: r.update_child(r.other, x=5)),
+        ("with_kid(r.other, x=5)", lambda r: r.with_kid(r.other, x=5)),
+        ("update_kid(0, r.kids[1], x=5)", lambda r: r.update_kid(0, r.kids[1], x=5)),
+        ("with_byname_item('b', r.other, x=5)", lambda r: r.with_byname_item("b", r.other, x=5)),
+        ("update(other=r.kids[0]) then nothing", lambda r: r.update(other=r.kids[0])),
+        # (storing an object of the receiver in the copy *as given* and then editing the copy in place is the caller's own aliasing: not judged)
+        ("with_kids(r.kids).with_kid(...)", lambda r: r.with_kids(r.kids).with_kid(Child(x=7))),
+        ("with_other(r.other).update_other(x=6)", lambda r: r.with_other(r.other).update_other(x=6)),
+    ]
+    for state, _r in receivers():
+        for label, fn in calls:
+            r = next(x for s_, x in receivers() if s_ == state)
+            before = snap({"recv": r})
+            ctx.count("calls_judged")
+            ctx.count("directed_aliasing_cases")
+            try:
+                fn(r)
+                outcome = "returned"
+            except Exception as e:
+                outcome = f"raised {type(e).__name__}"
+            after = snap({"recv": r})
+            ctx.sig("directed", state, label, outcome.split()[0])
+            if before != after:
+                ctx.violation("cow_receiver_unchanged", f"[directed, {state}] r.{label} ({outcome}) changed the receiver: {before.diff(after, 3)}",
+                              features={"phase": "directed", "hkind": label.split("(")[0], "state": state, "outcome": outcome.split()[0], "who": "receiver"}, case=["directed", state, label])
+
+
 def run(ctx, params):
+    if params.get("directed"):
+        return directed_cases(ctx)
     rng = ctx.rng
     fp = faults.LineFailpoints(REPO_ROOT)
     n_cases = params["cases"]
@@ -149,5 +220,5 @@ def run(ctx, params):
 
 def plan(tier, seed):
     if tier == "quick":
-        return [{"shard": i, "cases": 45, "judged_per_case": 6, "fault_fraction": 0.12, "lines_per_call": 60} for i in range(16)]
-    return [{"shard": i, "cases": 700, "judged_per_case": 8, "fault_fraction": 0.15, "lines_per_call": 400} for i in range(32)]
+        return [{"directed": True}] + [{"shard": i, "cases": 45, "judged_per_case": 6, "fault_fraction": 0.12, "lines_per_call": 60} for i in range(16)]
+    return [{"directed": True}] + [{"shard": i, "cases": 700, "judged_per_case": 8, "fault_fraction": 0.15, "lines_per_call": 400} for i in range(32)]
